@@ -47,6 +47,10 @@ func (childHandler) OnError(ctx context.Context, err error) {}
 //	<- "waitarrived <point> <id> <ms>"               -> "ARRIVED <bool>"
 //	stdin EOF                      exit 0
 func runChild(role string) {
+	if strings.HasPrefix(role, "pool") { // engine poolcross (engine_c03pool.go): Thrift + JSON endpoints, pool commands
+		c03pRunChild(role)
+		return
+	}
 	opts := &tchannel.ChannelOptions{Logger: tchannel.NullLogger}
 	server, err := tchannel.NewChannel("victim", opts)
 	if err != nil {
